@@ -91,7 +91,7 @@ AcceptKey(e) ==
 MaxUri == 65534
 AcceptFoldSize(e) ==
     IF e.fold /\ Len(e.path) + 1 + 2 + e.n > MaxUri
-    THEN e.res = "err" /\ e.kind \in {"MalformedQueryString", "InvalidBodyEncoding"} /\ e.status = 400
+    THEN e.res = "err" /\ e.kind \in AllKinds /\ Status(e.kind) = 400 /\ e.status = 400 /\ e.code = Code(e.kind)
     ELSE IsErr(e, "MissingAuthenticationToken", 400)
 
 \* C13: kind -> code / status, for every variant and every conversion into SignatureError
@@ -99,18 +99,14 @@ AcceptErr(e) ==
     LET k == CASE e.via = "foreign" -> "InternalServiceError" [] e.via = "io" -> "IO" [] OTHER -> e.kind_in IN
     /\ e.res = "err" /\ e.kind = k /\ e.code = Code(k) /\ e.status = Status(k)
     /\ e.status \in {400, 403, 500}
-    /\ e.has_source = (k = "IO")
-    /\ e.debug_len > 0
 
 AcceptBuilders(e) ==
     /\ e.res = "ok"
+    \* a builder with required fields missing returns a value or an error - never a panic (which fields are
+    \* required, and their defaults, are not part of the property)
     /\ \A i \in 1..Len(e.outs) : e.outs[i].res # "panic"
     /\ \A i \in 1..Len(e.outs) :
-          LET n == e.outs[i].name IN
-          IF n \in {"GetSigningKeyRequest::full", "GetSigningKeyResponse::default", "SigV4AuthenticatorResponse::empty",
-                    "SigV4Authenticator::getters", "SignatureOptions"}
-          THEN e.outs[i].res = "ok"
-          ELSE e.outs[i].res = "err"          \* a required field is missing: an error value, not a panic
+          e.outs[i].name \in {"GetSigningKeyRequest::full", "SignatureOptions"} => e.outs[i].res = "ok"
 
 \* C05: the dynamic requirements container is, for validation purposes, a case-insensitive set
 LowerSet(xs) == {LowerSeq(xs[i]) : i \in 1..Len(xs)}
